@@ -21,6 +21,16 @@ import (
 
 const childEnv = "VERIF_BUBBLE_CHILD"
 const resPrefix = "@@BUBBLE-RES "
+const curPrefix = "@@BUBBLE-CUR "
+
+// Announce tells the parent (one line on stdout) what this shard worker is about to do, e.g. the
+// choices of the execution in progress.  When the worker dies - a panic in a goroutine spawned by the
+// code under test cannot be caught - the parent attributes the death to the last announcement.
+func Announce(s string) {
+	if IsChild() {
+		os.Stdout.WriteString(curPrefix + s + "\n")
+	}
+}
 
 // IsChild tells whether this process is a shard worker.
 func IsChild() bool { return os.Getenv(childEnv) != "" }
@@ -64,6 +74,7 @@ type TaskResult struct {
 	Task   int
 	JSON   json.RawMessage // nil when the child died while running the task
 	Died   string          // tail of the child's output in that case
+	Cur    string          // in that case: what the child announced last (see Announce), i.e. the execution it was running
 	WallS  float64
 	Worker int
 }
@@ -114,6 +125,7 @@ func RunSharded(self, testName string, workers int, tasks []int, deadline time.T
 						if err == nil {
 							rd := bufio.NewReaderSize(stdout, 1<<20)
 							var noise []string
+							cur := ""
 							alive := true
 							for alive {
 								start := time.Now()
@@ -129,6 +141,10 @@ func RunSharded(self, testName string, workers int, tasks []int, deadline time.T
 										}
 										break
 									}
+									if strings.HasPrefix(line, curPrefix) {
+										cur = strings.TrimSpace(strings.TrimPrefix(line, curPrefix))
+										continue
+									}
 									if line != "" {
 										noise = append(noise, strings.TrimRight(line, "\n"))
 										if len(noise) > 60 {
@@ -142,6 +158,7 @@ func RunSharded(self, testName string, workers int, tasks []int, deadline time.T
 								}
 								r := TaskResult{Task: task, JSON: res, WallS: time.Since(start).Seconds(), Worker: w}
 								if res == nil {
+									r.Cur = cur
 									r.Died = strings.Join(noise, "\n")
 								}
 								mu.Lock()
